@@ -45,6 +45,10 @@ func (self ValueObject) DisplayFlat() (string, *VmInterrupt) {
 func (self ValueObject) IsEqual(other Value) (bool, *VmInterrupt) {
 	otherObj := other.(ValueObject)
 
+	if len(self.FieldsInternal) != len(otherObj.FieldsInternal) {
+		return false, nil
+	}
+
 	for key, value := range self.FieldsInternal {
 		otherValue, found := otherObj.FieldsInternal[key]
 		if !found {
